@@ -73,11 +73,15 @@ pub fn samples(m: &Model, tape: &[u16], per_root: usize, max_roots: usize, plant
     out
 }
 
-fn unsatisfiable(m: &Model) -> bool {
+pub fn unsatisfiable(m: &Model) -> bool {
     // a derived simple type whose facets contradict its ancestors' has no valid value; such models
     // are legal schemas but useless for value generation
     let g = Gen::new(m);
     expect::structs(m).iter().any(|s| matches!(s.kind, StructKind::Simple { .. }) && !g.satisfiable(s.q))
+}
+
+pub fn error_class_pub(msg: &str) -> String {
+    error_class(msg)
 }
 
 /// yaserde error text with the names taken out
